@@ -103,7 +103,8 @@ theorem sfn_facts {name : List Nat} {sfn : Bytes} (h : Sfn.createFromStr name = 
           split at h
           · cases h
           · cases h
-            exact loop_good _ _ _ good_init hst
+            have hg := loop_good _ _ _ good_init hst
+            exact ⟨by rw [C18.kanjiStore_length]; exact hg.1, C18.kanjiStore_mem_ne_zero _ hg.2⟩
   refine ⟨hg.1, ?_⟩
   unfold byteAt
   cases sfn with
